@@ -15,7 +15,7 @@ TRUSTED = ["Coq 8.16.1 kernel; no axioms (closed under the global context)",
            "hooks src/verif.rs; HashSet modelled as a sorted duplicate-free list",
            "modelled, not verified: the Rust source itself"]
 RULE = ("generated configurations (nesting, string-prefix siblings, uses/ignores naming targets, files, directories, outside paths) x change lists of "
-        "0..400 paths (>=20% above the batch size 50) plus permuted/duplicated variants of the same change set; malformed stream model-vs-impl only; "
+        "0..400 paths (>=20% above the batch size 50), a directed family (15%) in which an ancestor ignores part of a nested target that uses a path elsewhere and the changes hit both, plus permuted/duplicated variants of the same change set; malformed stream model-vs-impl only; "
         "non-trivial = in scope, >=1 changed target and >=1 unchanged target or an ignores/uses entry decided the outcome; distinct by (config, changes)")
 
 def impl_analyze(ctx, cfg, changes, sc=True, sct=True, stg=False):
@@ -57,6 +57,7 @@ def eval_case(ctx, cfg, changes, via="hook", impl=None, flags=(True, True, False
     return detail, impl
 
 def gen_case(rng):
+    if rng.random() < 0.15: return G.gen_nested_interplay(rng)
     cfg = G.gen_config(rng)
     r = rng.random()
     n = 0 if r < 0.05 else rng.randint(1, 6) if r < 0.45 else rng.randint(7, 50) if r < 0.7 else rng.randint(51, 150) if r < 0.88 else rng.randint(151, 400)
@@ -136,17 +137,24 @@ def shrink(ctx, case, detail):
     cfg, changes = case["cfg"], case["changes"]
     flags = tuple(case.get("flags", (True, True, False)))
     def fails(c, ch):
-        if not c["targets"]: return False
+        if not c["targets"] or ctx.shrink_expired(): return False
         impl = impl_analyze(ctx, c, ch, *flags)
         v = ctx.model.call("C01", G.cfg_val(c), ch, bool(flags[0] and flags[1]), impl)
         return bool(v[0]) and G.normalised(c, ch) and not bool(v[3])
     changed = True
     while changed:
         changed = False
-        # halve the change list first, then single removals
+        # halve the change list first, then drop ever smaller chunks, then single removals
         if len(changes) > 4:
             for part in (changes[:len(changes) // 2], changes[len(changes) // 2:]):
                 if fails(cfg, part): changes = part; changed = True; break
+            if changed: continue
+            k = len(changes) // 4
+            while k >= 2 and not changed:
+                for i in range(0, len(changes), k):
+                    ch = changes[:i] + changes[i + k:]
+                    if ch and fails(cfg, ch): changes = ch; changed = True; break
+                k //= 2
             if changed: continue
         for i in range(len(changes)):
             ch = changes[:i] + changes[i + 1:]
